@@ -108,7 +108,8 @@ Fixpoint alloc (L : ledger) (os : list owner) (cx : bool) : ledger * list nat :=
 (* primitives, oracle, trace                                           *)
 (* ------------------------------------------------------------------ *)
 Inductive kind := KEpoll | KUring | KPipe2 | KEventfd | KSocket | KSocketpair | KAccept
-                | KOpen | KInotify | KCmsg | KMkostemp.
+                | KOpen | KInotify | KCmsg | KMkostemp
+                | KRingOpen.   (* IORING_OP_OPENAT: the kernel opens the file from an SQE *)
 
 Inductive ans := AOk | AEmfile | AOther.
 
@@ -565,6 +566,9 @@ Definition op_give2 (m : mstate) (k : kind) (g1 g2 : nat) : prog (mstate * nat) 
   Has (fun o => own_is (OGiven g1) o || own_is (OGiven g2) o) (fun b =>
     if b || Nat.eqb g1 g2 then Ret (m, RC_MISUSE)
     else Create k [OGiven g1; OGiven g2] true (fun a => Ret (m, if is_ok a then RC_OK else RC_ERR))).
+(* asynchronous uv_fs_open on a loop with the SQPOLL ring: uv__iou_fs_open (linux.c:960-985) puts
+   "req->flags | O_CLOEXEC" into sqe->open_flags; no libc call creates the descriptor *)
+Definition op_iou_open (m : mstate) (g : nat) : prog (mstate * nat) := op_give1 m KRingOpen g.
 (* uv_fs_close(g) or the caller's own close() *)
 Definition op_user_close (m : mstate) (g : nat) : prog (mstate * nat) :=
   UserClose (fun _ o => own_is (OGiven g) o) (Ret (m, RC_OK)).
